@@ -350,6 +350,27 @@ def run_case(case, ctx):
                     'cores with and without cache differ (or are not float64)')
             ctx.event('float32-answers')
 
+    # (1b''') the cache as a dict SUBCLASS (defaultdict, OrderedDict): still a
+    # dictionary; membership is what decides whether an index is known
+    if rng.random() < 0.4:
+        import collections
+        csub = [collections.defaultdict(float), collections.OrderedDict(),
+            collections.defaultdict(lambda: None)][int(rng.integers(3))]
+        runs_ = crossh.execute(crossh.Run(T), Y0, cache=csub, **kw)
+        if runs_.error is None:
+            rows_s = {tuple(int(x) for x in r_) for b in runs_.batches
+                for r_ in b}
+            ctx.check('cache-contents', set(csub.keys()) == rows_s and all(
+                csub[k_] == float(T[k_]) for k_ in rows_s), lambda: 'cache '
+                f'given as {type(csub).__name__}: {len(csub)} keys, '
+                f'{len(rows_s)} indices evaluated')
+            if cached.info['stop'] != 'conv' and runs_.info['stop'] != 'conv':
+                ctx.check('cache-same-cores', same_cores(runs_.result,
+                    plain.result), f'cache given as {type(csub).__name__}: '
+                    'cores differ from the run without cache')
+        elif not isinstance(runs_.error, crossh.Abort):
+            raise runs_.error
+
     # (1c) nswp = 0: only the pre-iteration, no evaluation; info and cache
     # must still describe the returned tensor
     kw0 = {k: v for k, v in kw.items() if k not in ('nswp', 'e')}
